@@ -182,7 +182,10 @@ Section Model.
     | None => block_store_header st h
     end.
 
-  (** signature.Verify on abstract signatures *)
+  (** core/signature.verify (the wrapper around the crypto library's Verify) on abstract
+      signatures.  The wrapper recovers from a panic inside the library and returns false; in the
+      model that case is simply a signature that verifies under no key ([sig_verifies] is total
+      and false for everything but the exact (key, message) pair). *)
   Definition sig_verifies (k : key) (msg : hash) (s : sigv) : bool :=
     match s with SigOk k' m' => (k =? k') && (msg =? m') | SigMalformed => false end.
 
@@ -538,6 +541,7 @@ Definition model_trace_AddBlock : list string :=
 (* core/store/ledgerstore/ledger_store.go, func SubmitBlock *)
 Definition model_trace_SubmitBlock : list string :=
  ["call:getSavingBlockLock";
+  "defer";
   "call:releaseSavingBlockLock";
   "if:this.closing";
   "return:error";
@@ -594,6 +598,7 @@ Definition model_trace_saveBlock : list string :=
   "call:GetCurrentBlockHeight";
   "return:nil";
   "call:getSavingBlockLock";
+  "defer";
   "call:releaseSavingBlockLock";
   "if:this.closing";
   "return:error";
@@ -750,12 +755,21 @@ Definition model_trace_VerifyMultiSignature : list string :=
   "for:j < n";
   "if:mask[j]";
   "branch:continue";
-  "if:s.Verify(keys[j], data, sig)";
-  "call:s.Verify";
+  "if:verify(keys[j], data, sig)";
+  "call:verify";
   "branch:break";
   "if:!valid";
   "return:error";
   "return:nil"].
+
+(* core/signature/signature.go, func verify *)
+Definition model_trace_sigVerifyWrapper : list string :=
+ ["defer:func";
+  "defer:assign:r := recover()";
+  "defer:recover";
+  "defer:assign:ok = false";
+  "return:s.Verify(pubKey, data, sig)";
+  "call:s.Verify"].
 
 (* core/types/block.go, func Deserialization *)
 Definition model_trace_BlockDeserialization : list string :=
